@@ -1,2 +1,144 @@
-(** C11 - theorems under construction. *)
-From Coq Require Import ZArith.
+(** C11 - the extended-precision middle stage is never confidently wrong.
+    FULL STATEMENT: for all (w, q, truncated) in u64 x i32 x bool, both formats, both implementations:
+      the stage returns Ok fp (no panic) and, when fp is definite (exp fp >= 0), pack fp = RN f v for
+      every v in the denoted range (v = w*10^q, resp. w*10^q <= v < (w+1)*10^q when truncated).
+    PROVED for Bellerophon (compact builds), props below closed by [exact] (proofs/BellFacts0-5.v):
+      [bellerophon_sound] is exactly the full statement, for every format with [bell_ok] (computed on
+      the regenerated constants/tables), every build mode, every w, q - except the documented corner
+      `truncated /\ w < 2^40` (KNOWN_FINDINGS F2c; [small_truncated_corner] shows it is real), which
+      parse_float cannot produce (it passes 10^18 <= w when truncated).  Forward error analysis:
+      [bmul_ok] (the 64x64 multiply is round-half-up of the 128-bit product), table entries are floors
+      ([bell_tables_ok] on the regenerated tables), [stage2_bound], [accurate_band] (error_is_accurate
+      means no rounding boundary within the band), then RN_monotone.
+    Eisel-Lemire (default builds): see the Lemire theorems below when present (proofs/LemireFacts*.v);
+      what is not yet proved of it is attacked on every run by the stage-level search (closest
+      approaches, algebraic ties, all-ones fallback witnesses, degenerate products, every q). *)
+
+From Coq Require Import ZArith QArith List Bool Reals.
+From ML Require Import base.RustSem model.Fmt model.Num model.Number model.Rounding model.Bellerophon model.Lemire spec.Decimal spec.Round spec.RoundFacts spec.RneZ spec.RneBridge
+  gen.Consts gen.Tables gen.BTables proofs.TableFacts proofs.BellFacts0 proofs.BellFacts1 proofs.BellFacts2 proofs.BellFacts3 proofs.BellFacts4 proofs.BellFacts5.
+
+Open Scope Z_scope.
+
+Theorem C11_bell_ok_F32 :
+  bell_ok F32 = true.
+Proof. exact bell_ok_F32. Qed.
+
+Theorem C11_bell_ok_F64 :
+  bell_ok F64 = true.
+Proof. exact bell_ok_F64. Qed.
+
+Theorem C11_bellerophon_sound :
+  forall (f : format) (b : build) (w q : Z) (t : bool),
+         bell_ok f = true ->
+         0 <= w < 2 ^ 64 ->
+         - 2 ^ 31 <= q < 2 ^ 31 ->
+         (t = true -> 2 ^ 40 <= w) ->
+         exists fp : extfloat,
+           bellerophon BTABLES f b {| nexp := q; nmant := w; many := t |} = Ok fp /\
+           (0 <= exp fp ->
+            forall v : Q,
+            (if t
+             then (inject_Z w * pow10Q q <= v < inject_Z (w + 1) * pow10Q q)%Q
+             else v == inject_Z w * pow10Q q) -> RN f v = pack f fp).
+Proof. exact bellerophon_sound. Qed.
+
+Theorem C11_bellerophon_sound_strong :
+  forall (f : format) (b : build) (w q : Z) (t : bool),
+         bell_ok f = true ->
+         0 <= w < 2 ^ 64 ->
+         - 2 ^ 31 <= q < 2 ^ 31 ->
+         (t = true -> 2 ^ 40 <= w) ->
+         exists fp : extfloat,
+           bellerophon BTABLES f b {| nexp := q; nmant := w; many := t |} = Ok fp /\
+           (0 <= exp fp ->
+            extended_to_float f b fp = Ok (pack f fp) /\
+            (forall v : Q,
+             (if t
+              then (inject_Z w * pow10Q q <= v < inject_Z (w + 1) * pow10Q q)%Q
+              else v == inject_Z w * pow10Q q) -> RN f v = pack f fp)).
+Proof. exact bellerophon_sound_strong. Qed.
+
+Theorem C11_bmul_ok :
+  forall (b : build) (x y : extfloat),
+         2 ^ 32 <= mant x < 2 ^ 64 ->
+         2 ^ 32 <= mant y < 2 ^ 64 ->
+         - 2 ^ 31 <= exp x + exp y ->
+         exp x + exp y + 64 < 2 ^ 31 ->
+         bmul b x y = Ok {| mant := (mant x * mant y + 2 ^ 63) / 2 ^ 64; exp := exp x + exp y + 64 |}.
+Proof. exact bmul_ok. Qed.
+
+Theorem C11_bnormalize_ok :
+  forall (b : build) (m e : Z),
+         0 < m < 2 ^ 64 ->
+         - 2 ^ 31 + 63 <= e < 2 ^ 31 ->
+         bnormalize b {| mant := m; exp := e |} = Ok ({| mant := m * 2 ^ lz64 m; exp := e - lz64 m |}, lz64 m).
+Proof. exact bnormalize_ok. Qed.
+
+Theorem C11_error_is_accurate_ok :
+  forall (f : format) (b : build) (errors M e : Z),
+         RoundingFactsZ.rfmt_ok f = true ->
+         0 <= M < 2 ^ 64 ->
+         0 <= errors < 2 ^ 32 ->
+         -64 <= e <= 2 ^ 30 -> error_is_accurate f b errors {| mant := M; exp := e |} = Ok (acc f errors M e).
+Proof. exact error_is_accurate_ok. Qed.
+
+Theorem C11_accurate_band :
+  forall (f : format) (errors dlo M e : Z),
+         RoundingFactsZ.rfmt_ok f = true ->
+         2 ^ 63 <= M < 2 ^ 64 ->
+         -63 <= e ->
+         1 <= dlo < errors ->
+         4 * dlo < 2 ^ (63 - MANTISSA_SIZE f) ->
+         acc f errors M e = true ->
+         let lo := M - dlo in
+         let hi := M + errors - 2 in
+         (2 ^ 63 <= lo -> res f lo e = res f M e) /\
+         (lo < 2 ^ 63 -> -62 <= e /\ 2 ^ 62 <= lo /\ res f (2 * lo) (e - 1) = res f M e) /\
+         (hi < 2 ^ 64 -> res f hi e = res f M e) /\
+         (2 ^ 64 <= hi -> 2 ^ 63 <= (hi + 1) / 2 < 2 ^ 64 /\ res f ((hi + 1) / 2) (e + 1) = res f M e).
+Proof. exact accurate_band. Qed.
+
+Theorem C11_stage2_bound :
+  forall (q w : Z) (t : bool) (x : R),
+         0 < w < 2 ^ 64 ->
+         0 <= q + BIAS ->
+         lidx q < NLARGE ->
+         (t = true -> 2 ^ 40 <= w) ->
+         (if t
+          then (IZR w * Raux.bpow r10 q <= x < IZR (w + 1) * Raux.bpow r10 q)%R
+          else x = (IZR w * Raux.bpow r10 q)%R) ->
+         let x3 := fst (stage2 q w) in
+         let e3 := snd (stage2 q w) in
+         ((IZR x3 - 1) * Raux.bpow Zaux.radix2 e3 <= x <=
+          (IZR x3 + IZR (errs q w t) - 2) * Raux.bpow Zaux.radix2 e3)%R.
+Proof. exact stage2_bound. Qed.
+
+Theorem C11_small_truncated_corner :
+  bellerophon BTABLES F32 checked_build {| nexp := 0; nmant := 1; many := true |} =
+         Ok {| mant := 0; exp := 127 |} /\
+         (inject_Z 1 * pow10Q 0 <= 3 # 2 < inject_Z (1 + 1) * pow10Q 0)%Q /\
+         RN F32 (3 # 2) <> pack F32 {| mant := 0; exp := 127 |}.
+Proof. exact small_truncated_corner. Qed.
+
+Theorem C11_bell_F1_declined :
+  match
+           bellerophon BTABLES F64 checked_build {| nexp := -324; nmant := 1062871587088380183; many := true |}
+         with
+         | Ok fp => exp fp <? 0
+         | _ => false
+         end = true.
+Proof. exact bell_F1_declined. Qed.
+
+
+Print Assumptions C11_bell_ok_F32.
+Print Assumptions C11_bell_ok_F64.
+Print Assumptions C11_bellerophon_sound.
+Print Assumptions C11_bellerophon_sound_strong.
+Print Assumptions C11_bmul_ok.
+Print Assumptions C11_bnormalize_ok.
+Print Assumptions C11_error_is_accurate_ok.
+Print Assumptions C11_accurate_band.
+Print Assumptions C11_stage2_bound.
+Print Assumptions C11_small_truncated_corner.
+Print Assumptions C11_bell_F1_declined.
